@@ -9,10 +9,13 @@ def run(ctx):
                        "(SmfParse!Decode with canon flag: header length 6, ntrks = number of MTrk chunks, exact chunk lengths, one EOT last, minimal VLQs <= 4 bytes, "
                        "legal running status, no alien chunks, no trailing bytes) and must give Canon(history); size = len; second write identical. "
                        "VLQ: sweep of delta values through Track.Add/WriteTo/ReadFrom with the transcribed canonical-form invariant (see vlq section)")
-    ctx.cov["checker_cmd"] = "tlc MC_SmfRoundTrip ; tlc MC_Vlq ; tlc Trace_Smf judge=c03 ; vh vlq-sweep ; tlc Trace_Vlq"
+    ctx.cov["checker_cmd"] = "tlc MC_SmfRoundTrip ; tlc MC_Vlq ; apalache-mc ApaVlq (Decomp, Unique: all 2^28 values, symbolic) ; tlc Trace_Smf judge=c03 ; vh vlq-sweep ; tlc Trace_Vlq"
     ctx.cov["trusted_base"] = ["TLC", "spec/SmfParse.tla as the strict SMF 1.0 parser", "spec/Vlq.tla", "harness recording", "VlqCanonical transcription in the sweep (validated by TLC on samples each run)"]
     ctx.model_check("MC_SmfRoundTrip", "MC_SmfRoundTrip_quick.cfg" if q else "MC_SmfRoundTrip.cfg", timeout=3000)
     ctx.model_check("MC_Vlq")
+    # unbounded part, symbolically for all n < 2^28: digit decomposition and uniqueness of the canonical form
+    ctx.apalache("ApaVlq", "Decomp")
+    ctx.apalache("ApaVlq", "Unique")
     recs = []
     seeds = [ctx.seed] if q else [ctx.seed + i for i in range(4)]
     for s in seeds:
